@@ -130,12 +130,14 @@ def serialize_modes(types, desc, cfg, max_sites, kmax):
     cls = load_class(desc["module"], desc["name"])
     target = fork(sym_int("site", -1, max_sites - 1))       # -1: no violation
     plan = {"target": target, "seen": 0, "what": None}
-    tree = mut_unit(types, desc["instrs"], desc["name"], cfg, False, plan)
+    tree = mut_unit(types, desc["instrs"], desc["name"], cfg, desc["entry"], plan)
     assume(target == -1 or plan["what"] is not None)
     obj = build(types, cls, desc["instrs"], tree)
     k = fork(sym_int("k", 0, kmax))
     w = FaultyWriter(k)
     entry = sym_bool("entry")
+    if desc["entry"]:
+        assume(entry)
     w.string_sanitization_mode = entry
     outcome = "returned"
     try:
@@ -158,6 +160,8 @@ def deserialize_modes(types, desc, n, kmax, cap):
     k = fork(sym_int("k", 0, kmax))
     r = FaultyReader(data, k)
     entry = fork(sym_bool("entry"))
+    if desc["entry"]:
+        assume(entry)
     r.chunked_reading_mode = entry
     outcome = "returned"
     try:
@@ -174,9 +178,10 @@ def nested_not_chunked(types, desc, cfg):
     """A struct nested in a non-chunked parent is serialized with the parent's (entry) sanitisation for its
     non-chunked parts: observable because y-diaeresis survives outside chunked sections only."""
     cls = load_class(desc["module"], desc["name"])
-    tree = gen_unit(types, desc["instrs"], desc["name"], cfg, False, "any")
+    tree = gen_unit(types, desc["instrs"], desc["name"], cfg, desc["entry"], "any")
     obj = build(types, cls, desc["instrs"], tree)
     w = EoWriter()
+    w.string_sanitization_mode = desc["entry"]
     cls.serialize(w, obj)
     first = w.to_bytearray()
     # serializing again after the call behaves identically: no mode leaked into the writer
